@@ -46,7 +46,56 @@ def world():
     with warnings.catch_warnings():
         warnings.simplefilter('ignore')
         raw18 = FlowCal.io.FCSData(p18)
-    return {'raw': raw, 'rfi': rfi, 'mef': mef, 'float-neg': fneg, 'raw18': raw18}
+    W = {'raw': raw, 'rfi': rfi, 'mef': mef, 'float-neg': fneg, 'raw18': raw18}
+    history(W, d)
+    return W
+
+
+PNE = [(1.0, 1.0), (4.0, 1.0), (2.0, 0.5)]
+
+
+def declared_range(state, col):
+    """limits of a channel from the file's declared range and the documented unit laws (not from the object)"""
+    res = [262144, 256, 1000] if state == 'raw18' else RES
+    lim = np.array([0.0, res[col] - 1.0])
+    if state == 'rfi':
+        a0, a1 = PNE[col]
+        lim = a1 * 10 ** (a0 / float(res[col]) * lim)
+    elif state == 'mef':
+        lim = 2.5 * lim
+    return [float(lim[0]), float(lim[1])]
+
+
+def history(W, d):
+    """Before any bins are asked for, every sample has had a life: views, slices, copies and gated subsets were made
+    from it and used (converted, calibrated against with diagnostic plots, their range lists edited in place).  None of
+    that may show in the sample's own bins: the scenarios below compare with the DECLARED range."""
+    import FlowCal.mef
+    import FlowCal.gate
+    with warnings.catch_warnings():
+        warnings.simplefilter('ignore')
+        for name, x in W.items():
+            derived = [x.view(), x[:, :], x[1:], x[:, [0, 1, 2]], x.copy(), FlowCal.gate.start_end(x, 0, 1)]
+            for k, y in enumerate(derived):
+                for c in range(y.shape[1]):
+                    r = y.range(c)
+                    if isinstance(r, list) and len(r) == 2:
+                        r[0] = r[0] + 0.5 + k            # editing the list the derived object's accessor hands out
+                        r[1] = r[1] - 0.25
+                y.hist_bins(scale='log')
+                y.hist_bins(scale='linear')
+            if name in ('raw', 'float-neg'):
+                # a calibration with diagnostic plots on a view of the sample
+                v = x.view()
+                try:
+                    FlowCal.mef.get_transform_fxn(
+                        v, [[1.0, 2.0, 3.0]], ['c2'], clustering_fxn=lambda data, n, **kw: np.arange(data.shape[0]) % n,
+                        selection_fxn=None, fitting_fxn=lambda a, b: (lambda z: z, lambda z: z, np.array([1.0]), 's', ['p']),
+                        plot=True, plot_dir=os.path.join(d, 'plots_' + name))
+                except Exception:  # noqa  (the diagnostic plots themselves belong to C13/C15)
+                    pass
+                import matplotlib.pyplot as plt
+                plt.close('all')
 
 
 def expected_params(x, col, src, ovr):
@@ -83,7 +132,7 @@ def fp(x):
     return (np.asarray(x.view(np.ndarray)).tobytes(), json.dumps([[float(v) for v in r] for r in x.range()]))
 
 
-def check_edges(x, col, e, p, ovr, src=None):
+def check_edges(x, col, e, p, ovr, src=None, state=None):
     e = np.asarray(e, dtype=np.float64)
     n = p['n']
     if e.ndim != 1 or len(e) != n + 1:
@@ -93,6 +142,8 @@ def check_edges(x, col, e, p, ovr, src=None):
     if not np.all(np.diff(e) > 0):
         return 'not-increasing'
     lo, hi = [float(v) for v in x.range(col)]
+    if state is not None and [lo, hi] != declared_range(state, col):
+        return 'range-is-not-the-declared-one'
     if p['scale'] == 'linear':
         coord, clo, chi = e, lo, hi
     elif p['scale'] == 'log':
@@ -188,7 +239,7 @@ def main(chk, replay=None):
         else:
             req = f['cols'] if f['t'] != 'none' else [1, 2, 3]
             if exp['scalar']:
-                lab = 'not-an-array' if isinstance(r, list) else check_edges(x, req[0] - 1, r, exp['per'][0], OVR[ov], exp.get('src'))
+                lab = 'not-an-array' if isinstance(r, list) else check_edges(x, req[0] - 1, r, exp['per'][0], OVR[ov], exp.get('src'), state)
                 results = [r]
             elif not isinstance(r, list) or len(r) != len(exp['per']):
                 lab = 'list-shape'
@@ -196,7 +247,7 @@ def main(chk, replay=None):
             else:
                 results = r
                 for j, p in enumerate(exp['per']):
-                    lab = check_edges(x, req[j] - 1, r[j], p, OVR[ov], exp.get('src'))
+                    lab = check_edges(x, req[j] - 1, r[j], p, OVR[ov], exp.get('src'), state)
                     if lab:
                         lab = 'ch%d/' % req[j] + lab
                         break
